@@ -312,6 +312,17 @@ theorem IndexRange.map_spec (r : IndexRange) (m : Nat) (hm : m ≤ usizeMax) (hc
     constructor <;> intro <;> omega
   · exact ⟨none, by simp [h], h⟩
 
+/-- `IndexRange::map` on a clipped range in closed form: no overflow for any coordinate -/
+theorem IndexRange.map_clip_eq (r : IndexRange) (m : Nat) (hm : m ≤ usizeMax) (i : Nat) :
+    (r.clip m).map i = .ok (if i < (r.clip m).length then some (i + r.start) else none) := by
+  simp only [IndexRange.map]
+  by_cases h : i < (r.clip m).length
+  · have : i + r.start ≤ usizeMax := by
+      have := IndexRange.clip_clipped r m hm
+      simp only [IndexRange.Clipped, IndexRange.clip_start] at this; omega
+    simp [h, IndexRange.clip_start, cadd_ok this]
+  · simp [h]
+
 theorem IndexRange.tryMask_spec (r : IndexRange) (m : Nat) (hm : m ≤ usizeMax) (hc : r.Clipped m) :
     CoordSpec (Arith.fixed.maskChecked r) (m - r.length) m := by
   intro i
